@@ -1332,3 +1332,123 @@ func ruleAbolishClears(c *Ctx, r *Report) {
 		r.info(rule, "scan/deletes", "-", desc, "no delete from VM.procedures found")
 	}
 }
+
+// ---------------------------------------------------------------------------
+// C09: R-CLAUSE-IDENTITY — added for seed C09b (second round), which had been recorded as missed.  "retract/1
+// removes exactly the clause it unified with ... every clause is removed at most once."  The open retract/1
+// finds its snapshot clause in the live list by asking whether two clause values are ONE stored clause.  That
+// is a question about storage, not about the clause's term: `foo. foo.` are two stored clauses with one term
+// (an atom has no identity of its own).  Wherever both clauses have compiled code - every stored clause has -
+// the answer must not be computed from the `raw` term: each return of the identity test whose value depends on
+// the field `raw` lies under a fact that a bytecode length is zero.
+func ruleClauseIdentity(c *Ctx, r *Report) {
+	const rule = "R-CLAUSE-IDENTITY"
+	desc := "two stored clauses are told apart by their storage, not by their term, whenever both have code"
+	retract := c.registeredFn("retract", 1)
+	if retract == nil {
+		r.undecided(rule, "anchor:retract/1", "-", "locate retract/1", "not registered")
+		return
+	}
+	// the identity test: a function with two *clause parameters and a bool result called from retract/1
+	var same *ssa.Function
+	for _, fn := range withAnon(retract) {
+		eachInstr(fn, func(in ssa.Instruction) {
+			call, ok := in.(*ssa.Call)
+			if !ok {
+				return
+			}
+			callee := call.Call.StaticCallee()
+			if callee == nil || funcPkg(callee) != c.Engine || callee.Signature.Params().Len() != 2 || callee.Signature.Results().Len() != 1 {
+				return
+			}
+			if !isEngNamed(deref(callee.Signature.Params().At(0).Type()), "clause") || !isEngNamed(deref(callee.Signature.Params().At(1).Type()), "clause") {
+				return
+			}
+			same = callee
+		})
+	}
+	if same == nil {
+		r.undecided(rule, "anchor:identity-test", c.Pos(retract.Pos()), desc, "retract/1 calls no function of two clauses")
+		return
+	}
+	readsField := func(v ssa.Value, field string) bool {
+		found := false
+		dataSlice(v, func(x ssa.Value) bool {
+			switch y := x.(type) {
+			case *ssa.UnOp:
+				if fa, ok := y.X.(*ssa.FieldAddr); ok && y.Op == token.MUL && fieldName(fa) == field && isEngNamed(deref(fa.X.Type()), "clause") {
+					found = true
+				}
+			case *ssa.Call:
+				// id(a.raw): dataSlice walks the arguments itself
+			}
+			return !found
+		})
+		return found
+	}
+	n := 0
+	eachInstr(same, func(in ssa.Instruction) {
+		ret, ok := in.(*ssa.Return)
+		if !ok || len(ret.Results) != 1 {
+			return
+		}
+		n++
+		key := fmt.Sprintf("%s/return#%d", fname(same), n)
+		if !readsField(ret.Results[0], "raw") {
+			r.ok(rule, key, c.at(ret), desc, "the value does not depend on the clause's term", true)
+			return
+		}
+		noCode := false
+		for f := range c.factsAt(ret.Block()) {
+			x, op, k, ok := cmpConst(f.cond)
+			if !ok || k != 0 {
+				continue
+			}
+			if _, isLen := lenOfField(x, "clause", "bytecode"); !isLen {
+				continue
+			}
+			empty := (op == token.EQL && f.pol) || ((op == token.GTR || op == token.NEQ) && !f.pol)
+			if empty {
+				noCode = true
+			}
+		}
+		// `a && b` false: neither conjunct is known false on its own; accept the return that is NOT dominated by
+		// "both lengths are positive"
+		if !noCode {
+			bothPositive := 0
+			for f := range c.factsAt(ret.Block()) {
+				x, op, k, ok := cmpConst(f.cond)
+				if ok && k == 0 {
+					if _, isLen := lenOfField(x, "clause", "bytecode"); isLen && ((op == token.GTR || op == token.NEQ) && f.pol) {
+						bothPositive++
+					}
+				}
+			}
+			if bothPositive < 2 {
+				// reached also when a length is zero; is it reachable when both are positive?  cut the edges that
+				// say "positive" is false and see whether the return is still reachable only through them
+				reach := reachableAvoiding(same, ret.Block(), func(from *ssa.BasicBlock, i int, cond ssa.Value) bool {
+					x, op, k, ok := cmpConst(cond)
+					if !ok || k != 0 {
+						return false
+					}
+					if _, isLen := lenOfField(x, "clause", "bytecode"); !isLen {
+						return false
+					}
+					// cut the edge on which this length is zero
+					return ((op == token.GTR || op == token.NEQ) && i == 1) || (op == token.EQL && i == 0)
+				})
+				noCode = !reach
+			}
+		}
+		if noCode {
+			r.ok(rule, key, c.at(ret), desc, "the term is consulted only where a clause has no code", true)
+		} else {
+			r.bad(rule, key, c.at(ret), desc, "the answer is computed from the clauses' terms although both have code: `foo. foo.` are one clause to this test, so a retract/1 that was overtaken removes the wrong copy or counts one removal twice")
+		}
+	})
+	if n == 0 {
+		r.undecided(rule, "anchor:returns", c.Pos(same.Pos()), desc, "the identity test has no return")
+	}
+	r.analysed(rule, fname(same))
+}
